@@ -765,14 +765,3 @@ c.skip_cross = True
 c.inline = True
 c.mod("self.*")
 c.ens("caching-flag-stored-font-cache-empty-and-its-own", lambda self, caching: And(Iff(self.caching, caching), self._cached_fonts == {}))
-
-_itp_init = stub("pdfminer.pdfinterp:PDFPageInterpreter.__init__", ["self", "rsrcmgr", "device"])
-c = contract("pdfminer.pdfinterp:PDFPageInterpreter.dup", props=["C05", "C12"])
-c.param("self", T.Obj("pdfminer.pdfinterp:PDFPageInterpreter", rsrcmgr=T.Const("rm"), device=T.Const("dev")))
-c.skip_cross = True
-c.inline = True
-c.stubs = {"pdfminer.pdfinterp:PDFPageInterpreter.__init__": _itp_init}
-c.returns(T.Opaque("interpreter"))
-c.ens("a-new-interpreter-of-the-same-class-on-the-same-manager-and-device", lambda self, result, trace: (
-    len(trace) == 1 and trace[0][1]["rsrcmgr"] == "rm" and trace[0][1]["device"] == "dev" and result is not self
-    and isinstance(result, SObj) and result.cls is self.cls))
